@@ -212,6 +212,16 @@ func mavenUniverse(r *rand.Rand) *UniCase {
 		if i == 0 {
 			v.Name = "g:root"
 		}
+		// Registries: where a version can be fetched from and which further
+		// repositories it declares. A version found only in a repository
+		// nobody on the path declares makes the resolver run a second,
+		// multi-registry pass.
+		if r.Intn(3) == 0 {
+			regDict := []string{"|", "dep:", "default:", "://", " "}
+			v.Registries = maybeHostile(r, gen.Pick(r,
+				"https://repo.example/r1", "dep:https://repo.example/r1", "https://repo.example/r1|dep:https://repo.example/r2",
+				"default:https://corp.example/m2", "https://repo.maven.apache.org/maven2", "|https://repo.example/r2", "https://repo.example/r2"), 6, regDict)
+		}
 		u.Versions = append(u.Versions, v)
 	}
 	exDict := []string{"|", ":", "*", "g:*", "*:*", "||", "::"}
